@@ -131,3 +131,32 @@ func VerifHandlerOf(obj any) *Handler {
 	h, _ := obj.(*Handler)
 	return h
 }
+
+// VerifPeerRefs: reference count of a dial address in the process-wide peers pool, and whether it has an entry.
+func VerifPeerRefs(dialAddr string) (int, bool) { return peers.References(dialAddr) }
+
+// VerifPoolPeerID: identity of the peer the pool holds for a dial address ("" if none).
+func VerifPoolPeerID(dialAddr string) string {
+	id := ""
+	peers.Range(func(key, value any) bool {
+		if key == dialAddr {
+			id = fmt.Sprintf("%p", value)
+			return false
+		}
+		return true
+	})
+	return id
+}
+
+// VerifHandlerPeerIDs: identity of the peers the handler's upstreams point to, by dial address.
+func VerifHandlerPeerIDs(h *Handler) map[string]string {
+	out := map[string]string{}
+	for _, u := range h.Upstreams {
+		for i, p := range u.peers {
+			if i < len(u.Dial) {
+				out[u.Dial[i]] = fmt.Sprintf("%p", p)
+			}
+		}
+	}
+	return out
+}
